@@ -170,6 +170,14 @@ Definition bad_silent (s : st0) : bool :=
   negb (alive s) && existsb (fun cl => existsb (fun r => match r with
         | (c, RetUnit) => negb (existsb (callid_eqb c) (applied_ids s)) && negb (existsb (callid_eqb c) (enq s))
         | _ => false end) (c_rets cl)) (clients s).
+(* a caller inside a call that has no enabled step although the actor is dead: it waits forever (C20_no_hang) *)
+Definition in_call_b (pc : @pc nat) : bool :=
+  match pc with Sending _ _ _ _ | Waiting _ _ | StopSend _ _ _ | StopWait _ _ _ => true | _ => false end.
+Definition bad_hang (m : rmodel) (s : st0) : bool :=
+  negb (alive s) && existsb (fun t => match nth_error (clients s) t with
+        | Some cl => in_call_b (c_pc cl) && match step sem0 sem_slf0 0 m s (Cl t) with None => true | Some _ => false end
+        | None => false end) (seq 0 (length (clients s))).
+Definition bad_c20 (m : rmodel) (s : st0) : bool := bad_silent s || bad_hang m s.
 (* search with 3 clients calling method k (client 0 with a panicking argument when [boom]) *)
 Definition search (m : rmodel) (bad : st0 -> bool) (k : nat) (boom : bool) (depth : nat) : option (list nat) :=
   let progs := map (fun i => ([Call k (if boom && Nat.eqb i 0 then repeat 999 (Nat.max 1 (arity m k)) else tagged i k (arity m k))], 1)) (seq 0 3) in
